@@ -127,8 +127,22 @@ def oracle_seq(case, lines, casedir):
     nows = {int(hdr_get(case.header, "now", "1000"))}
     erridx = []
     opi = 0
+    rolls = 0
+
+    def st(line, key):
+        m = re.search(r" %s=(-?\d+)" % key, line)
+        return int(m.group(1)) if m else None
+
     for op in case.ops:
         t = op.split()
+        before = lines[opi] if opi < len(lines) else ""
+        after = lines[opi + 1] if opi + 1 < len(lines) else ""
+        lr0, lr1, wb0, wb1 = st(before, "lr"), st(after, "lr"), st(before, "wb"), st(after, "wb")
+        if None in (lr0, lr1, wb0, wb1):
+            return "op %d (%s): unparsable driver output %r" % (opi, op[:40], after[:80])
+        started = None       # a new file was started by this op (observed, not modelled)
+        if t[0] == "R":
+            started = after.startswith("R 1")
         if t[0] == "A":
             data = bytes_of_spec(t[1])
             nows.update((int(t[2]), int(t[3])))
@@ -148,13 +162,21 @@ def oracle_seq(case, lines, casedir):
                     pos = len(data)
             else:
                 pos = len(data)
+            counted = pos if not err else pos - k     # `written`: the erroring result is not added
             chunks.append(data[:pos])
             out = lines[opi + 1] if opi + 1 < len(lines) else ""
             m = re.search(r" err=(\d)", out)
             if not m or (m.group(1) == "1") != err:
                 return "op %d (%s): stream error %s by the script but the driver saw err=%s" % (opi, op[:40], "reported" if err else "not reported", m.group(1) if m else "?")
+            # writtenBytes_ of the current file restarted from 0 although this file had / got bytes
+            started = (wb1 == 0 and wb0 + counted > 0) or lr1 != lr0
         elif t[0] == "R":
             nows.add(int(t[1]))
+        if started:
+            rolls += 1
+            if not lr1 > lr0:
+                return ("op %d (%s): a new file was started although the clock (%d) is not past the previous creation second (%d): "
+                        "more than one file per second" % (opi, op[:40], lr1, lr0))
         opi += 1
     names = sorted(fl)
     eps = []
@@ -167,6 +189,8 @@ def oracle_seq(case, lines, casedir):
         eps.append(ep)
     if any(eps[i] >= eps[i + 1] for i in range(len(eps) - 1)):
         return "file creation seconds not strictly increasing: %s" % eps
+    if len(names) != rolls + 1:
+        return "%d files on disk but %d were started (the constructor's + %d rolls): two files share a creation second" % (len(names), rolls + 1, rolls)
     contents = []
     for n in names:
         try:
@@ -748,6 +772,9 @@ def run(chk, replay=None):
     f8_seen = any(k == F8_KEY for (_, k, _) in known_bad)
     chk.add_obligation("generated fact AsyncLogging_drain_after_loop=%s agrees with the real code on the F-8 witness family" % drain,
                        replay is not None or (f8_seen != drain))
+    gen_problems = [x for x in pr.get("problems", []) if x.startswith("gen_C16.py")]
+    chk.add_obligation("generated facts of lib/gen_C16.py (drain after the loop, fit test, roll guard, 25/2/2) translated from the current sources without fallback",
+                       not gen_problems)
     chk.add_obligation("correspondence: extracted C16_Model (LogFile/AppendFile ops; AsyncLogging gate-to-gate steps) == real classes on every case", not corr_bad)
     chk.add_obligation("oracle: files read back == appended records (exactly once, whole, in order, announced drops only, stop flushes)", not oracle_bad and not known_bad)
     chk.trusted("extraction: ExtrOcamlBasic only; extract/util.ml + extract/C16_driver.ml (OCaml 4.13.1; maps model park points to gates, steps over unobservable parks)",
@@ -795,9 +822,11 @@ def run(chk, replay=None):
                 chk.violation(p, "C16 fails on the implementation (finding F-8, not recorded in KNOWN_FINDINGS.txt; generated fact drain_after_loop=%s): %s (%d failing cases, signature %s)"
                               % (drain, msg0, len(cands), key))
                 reported = True
-    if not reported and (corr_bad or not pr["ok"]):
+    if not reported and (corr_bad or not pr["ok"] or gen_problems):
         what = []
         body = ""
+        if gen_problems:
+            what.append("the shape facts the theorems rest on could not be read off the current sources: %s" % "; ".join(gen_problems))
         if not pr["ok"]:
             what.append("proof obligation(s) no longer check: %s %s" % (pr["broken"], pr["problems"]))
         if corr_bad:
